@@ -74,6 +74,8 @@ impl<P: Permutation> Group<P> {
                 let mut out = Vec::with_capacity(left.len() * right.len());
 
                 for l in left {
+                    #[cfg(slotted_egraphs_verif)]
+                    crate::verif::work();
                     out.extend(right.iter().map(|r| r.compose(l)));
                 }
 
